@@ -23,8 +23,11 @@ import (
 	"encoding/json"
 	"fmt"
 	"os"
+	"os/exec"
+	"path/filepath"
 	"regexp"
 	"strings"
+	"time"
 
 	"verifharness/pkg/hx"
 )
@@ -188,6 +191,9 @@ func generalise(d string) string {
 	}
 	if strings.HasPrefix(d, "same JSON value") {
 		if strings.Contains(d, "not valid UTF-8") {
+			if m := firstSuchMember.FindStringSubmatch(d); m != nil {
+				return "bytes-only:invalid-utf8:" + m[1]
+			}
 			return "bytes-only:invalid-utf8"
 		}
 		return "bytes-only"
@@ -198,6 +204,7 @@ func generalise(d string) string {
 var fieldInErr = regexp.MustCompile(`field '([^']+)'`)
 var bracketed = regexp.MustCompile(`\[[^\]]*\]`)
 var unableToRead = regexp.MustCompile(`unable to read ([a-z_]+)`)
+var firstSuchMember = regexp.MustCompile(`first such member: ([^)]*)\)`)
 var quoted = regexp.MustCompile("\"[^\"]*\"|'[^']*'")
 
 // readErrClass names what could not be read back: the object ("run", "event", "contact", "input", "trigger", …) and the
@@ -242,6 +249,63 @@ func main() {
 		repo = "/repo"
 	}
 
+	// ---- child processes with the host's default kind of clock (times in the process's Local zone) in zones at UTC+0:
+	// a stored `…Z` time is read back as UTC, not Local (hunt2 C02 f3).  They run the corpus and a reduced rich stream.
+	child := os.Getenv("C02_LOCAL_CLOCK") != ""
+	type childRun struct {
+		tz  string
+		dir string
+		cmd *exec.Cmd
+	}
+	var children []*childRun
+	if !child {
+		for _, tz := range []string{"Europe/London", "UTC"} {
+			dir := filepath.Join(o.Out, "tz_"+strings.ReplaceAll(tz, "/", "_"))
+			cmd := exec.Command(os.Args[0], "-prop", o.Prop, "-seed", fmt.Sprint(o.Seed), "-tier", o.Tier, "-out", dir)
+			cmd.Env = append(os.Environ(), "TZ="+tz, "C02_LOCAL_CLOCK=1")
+			if err := cmd.Start(); err != nil {
+				res.Fail("harness:child-process", map[string]any{"TZ": tz}, err.Error())
+				continue
+			}
+			children = append(children, &childRun{tz, dir, cmd})
+		}
+	}
+	defer func() {
+		for _, c := range children {
+			done := make(chan error, 1)
+			go func() { done <- c.cmd.Wait() }()
+			select {
+			case err := <-done:
+				if err != nil {
+					res.Fail("harness:child-process", map[string]any{"TZ": c.tz}, err.Error())
+					continue
+				}
+			case <-time.After(10 * time.Minute):
+				c.cmd.Process.Kill()
+				res.Fail("harness:child-process", map[string]any{"TZ": c.tz}, "timeout")
+				continue
+			}
+			b, err := os.ReadFile(filepath.Join(c.dir, "result.json"))
+			var cr hx.Result
+			if err != nil || json.Unmarshal(b, &cr) != nil {
+				res.Fail("harness:child-process", map[string]any{"TZ": c.tz}, "no result")
+				continue
+			}
+			res.OracleChecks += cr.OracleChecks
+			res.Evaluations += cr.Evaluations
+			for k, v := range cr.Distribution {
+				if strings.HasPrefix(k, "stream=") || strings.HasPrefix(k, "oracle_fail:") {
+					res.Distribution["TZ="+c.tz+":"+k] += v
+				}
+			}
+			for _, f := range cr.Failures {
+				res.Fail(f.Class, map[string]any{"process_TZ": c.tz, "clock": "sequential, in time.Local, from 2024-01-15T12:00", "input": f.Input}, f.Detail)
+			}
+			os.RemoveAll(c.dir)
+		}
+		res.Write(o)
+	}()
+
 	// ---- corpus (inputs that once failed)
 	for _, sc := range corpusScenarios() {
 		sr := evaluate(o, sc, rnd.Fork(sc.Name), res)
@@ -257,8 +321,11 @@ func main() {
 
 	// ---- suite stream
 	suite, notes := suiteScenarios(repo)
+	if child {
+		suite, notes = suite[:0], nil
+	}
 	res.Notes = append(res.Notes, notes...)
-	if len(suite) == 0 {
+	if len(suite) == 0 && !child {
 		res.Fail("harness:suite-stream-empty", nil, "no runner scripts found under "+repo)
 	}
 	for _, sc := range suite {
@@ -272,8 +339,9 @@ func main() {
 	}
 
 	runRich(o, rnd, res)
-	runCFL(o, rnd, res)
-	res.Write(o)
+	if !child {
+		runCFL(o, rnd, res)
+	}
 }
 
 func nontrivialExec(ex *Exec) bool {
